@@ -222,6 +222,59 @@ package coins
 //@   assumespre (*Coins).CreateToken: the caller (RecreateCoinData / RecreateTokenData) has checked the new id, amounts and that the ticker is being re-created
 //@   ensures [C09,C22] archived: o.isDirty && (o.id in c.dirty)
 
+//@ # ---------------------------------------------------------------- C09/C22: Commit writes every registered coin whose record is dirty
+//@ # tree keys (ASSUMED: coin keys are injective; the families differ in length: 5, 6, 12 and 13 bytes)
+//@ spec coinPath(id types.CoinID) string
+//@ spec coinInfoPath(id types.CoinID) string
+//@ spec symCoinsPath(s types.CoinSymbol) string
+//@ spec symInfoPath(s types.CoinSymbol) string
+//@ axiom coinPathInj: forall a types.CoinID, b types.CoinID :: coinPath(a) == coinPath(b) ==> a == b
+//@ axiom coinPathApart1: forall a types.CoinID, b types.CoinID :: coinPath(a) != coinInfoPath(b)
+//@ axiom coinPathLen: forall a types.CoinID :: len(coinPath(a)) == 5
+//@ func getCoinPath
+//@   trusted
+//@   ensures result != nil && fresh(result) && bytestr(result) == coinPath(id)
+//@   modifies nothing
+//@ func getCoinInfoPath
+//@   trusted
+//@   ensures result != nil && fresh(result) && bytestr(result) == coinInfoPath(id)
+//@   modifies nothing
+//@ func getSymbolCoinsPath
+//@   trusted
+//@   ensures result != nil && fresh(result) && bytestr(result) == symCoinsPath(symbol) && len(symCoinsPath(symbol)) == 12
+//@   modifies nothing
+//@ func getSymbolInfoPath
+//@   trusted
+//@   ensures result != nil && fresh(result) && bytestr(result) == symInfoPath(symbol) && len(symInfoPath(symbol)) == 13
+//@   modifies nothing
+//@ func (*Coins).getOrderedDirtyCoins
+//@   trusted
+//@   ensures allkeys: forall h types.CoinID :: (h in c.dirty) ==> exists i int :: 0 <= i && i < len(result) && result[i] == h
+//@   ensures onlykeys: forall i int :: 0 <= i && i < len(result) ==> (result[i] in c.dirty)
+//@   ensures once: forall i int, j int :: 0 <= i && i < j && j < len(result) ==> result[i] != result[j]
+//@   ensures fresh(result)
+//@   modifies nothing
+//@ # C09/C22: on success a coin that was registered dirty and whose own flag was set has its record in the tree under
+//@ # its own key, its flag is cleared and nothing stays registered (with Recreate above: the archived coin of a
+//@ # re-created ticker reaches the tree). Stated for an arbitrary coin id anyCoin().
+//@ func (*Coins).Commit
+//@   serves C09 C22
+//@   let h = anyCoin()
+//@   let m = old(c.list[h])
+//@   requires c != nil && c.dirty != nil && c.list != nil && db != nil
+//@   requires cached: forall k types.CoinID :: (k in c.dirty) ==> (k in c.list) && c.list[k] != nil && allocated(c.list[k])
+//@   requires ownrecords: forall a types.CoinID, b types.CoinID :: a != b && (a in c.dirty) && (b in c.dirty) ==> c.list[a] != c.list[b]
+//@   ensures [C09,C22] written: result == nil && old(h in c.dirty) && old(m.isDirty) ==> mtreeVal(db, coinPath(h)) == rlpOf(m) && !m.isDirty
+//@   ensures [C09] cleared: result == nil ==> !(h in c.dirty)
+//@   loop 0 invariant idx: -1 <= rangeindex && (rangeindex < len(coins) || (rangeindex == -1 && len(coins) == 0))
+//@   loop 0 invariant keys: forall i int :: 0 <= i && i < len(coins) ==> old(coins[i] in c.dirty)
+//@   loop 0 invariant once: forall i int, j int :: 0 <= i && i < j && j < len(coins) ==> coins[i] != coins[j]
+//@   loop 0 invariant pending: forall i int :: rangeindex < i && i < len(coins) ==> (coins[i] in c.dirty) && (coins[i] in c.list) && c.list[coins[i]] == old(c.list[coins[i]]) && c.list[coins[i]].isDirty == old(c.list[coins[i]].isDirty)
+//@   loop 0 invariant subset: forall k types.CoinID :: (k in c.dirty) ==> old(k in c.dirty)
+//@   loop 0 invariant gone: forall i int :: 0 <= i && i <= rangeindex ==> !(coins[i] in c.dirty)
+//@   loop 0 invariant done1: old(h in c.dirty) && !(h in c.dirty) && old(m.isDirty) ==> mtreeVal(db, coinPath(h)) == rlpOf(m)
+//@   loop 0 invariant done2: old(h in c.dirty) && !(h in c.dirty) && old(m.isDirty) ==> !m.isDirty
+
 //@ # ---------------------------------------------------------------- lock discipline (C25)
 //@ guarded Coins.list, Coins.dirty, Coins.symbolsList, Coins.symbolsInfoList by lock
 //@ # NOT declared: the fields of the per-coin record (Model.info is read without the record's lock by Reserve, isDirty is
